@@ -165,3 +165,77 @@ class Passes:
                 elif isinstance(st.value, ast.Subscript) and is_name(st.value.value, opvar) and isinstance(st.value.slice, ast.Constant):
                     plain.append((st.targets[0].id, st.value.slice.value, st))
         return sub, plain
+
+
+# --------------------------------------------------------------------------- evaluated node -> op translation (Engine M)
+
+def translation_loop(init):
+    """The `for n in circuit.topological_order():` loop of SimOps.__init__ that appends to ops."""
+    for l in find_all(init, ast.For, nested=False):
+        if 'topological_order' in norm(l.iter) and isinstance(l.target, ast.Name) and any(call_name(c) == 'ops.append' for c in find_all(l, ast.Call)):
+            return l
+    raise AnchorError('SimOps.__init__: the node -> op translation loop was not found')
+
+
+def evaluate_translation(init, prefix_rows, cases):
+    """ops emitted for each stand-in node of `cases` (dicts with keys kind, ins, outs, s_pos or None, strip_forks), by running the
+    loop body in Engine M. Returns [(case, ops or 'ExcName: msg')]. Raises ModelError if the body is outside the evaluator subset."""
+    from . import minieval
+    loop = translation_loop(init)
+    nvar = loop.target.id
+    luts = sorted({nm for _p, names, _n in prefix_rows for nm in names} | {'BUF1', 'INV1'})
+    kp = {}
+    for p, names, _node in prefix_rows:
+        kp[p] = tuple(names)
+
+    class ACtrl(dict):
+        def __missing__(self, k):
+            return ('a_loc', getattr(k, 'index', k))
+    out = []
+    for case in cases:
+        def mk(seq, base):
+            return [None if not c else minieval.NS(index=base + k) for k, c in enumerate(seq)]
+        node = minieval.NS(kind=case['kind'], ins=mk(case['ins'], 100), outs=mk(case['outs'], 200), name='n', index=7)
+        env = {nvar: node, 'ops': [], 'a_ctrl': ACtrl(), 'strip_forks': case['strip_forks'], 'kind_prefixes': dict(kp),
+               'self': minieval.NS(ppi_offset=1000, ppo_offset=2000, zero_idx=900, tmp_idx=901, tmp2_idx=902),
+               'interface_dict': ({node: case['s_pos']} if case['s_pos'] is not None else {})}
+        for nm in luts:
+            env[nm] = nm
+        try:
+            minieval.run(loop.body, env)
+            out.append((case, [tuple(o) for o in env['ops']]))
+        except minieval.Returned:
+            out.append((case, [tuple(o) for o in env['ops']]))
+        except (IndexError, KeyError, TypeError, AttributeError, ValueError) as e:
+            out.append((case, f'{type(e).__name__}: {e}'))
+    return out
+
+
+def expected_translation(case, prefix_rows):
+    """What the op list must contain for the stand-in node (documented semantics of SimOps)."""
+    Z, T = 900, 901
+    ins = [100 + k if c else None for k, c in enumerate(case['ins'])]
+    outs = [200 + k if c else None for k, c in enumerate(case['outs'])]
+    if case['s_pos'] is not None:
+        src = 1000 + case['s_pos']
+        ops = []
+        for k, o in enumerate(outs):
+            if o is None:
+                continue
+            lut = 'INV1' if (k == 1 and 'dff' in case['kind'].lower()) else 'BUF1'
+            if k >= 2 and 'dff' in case['kind'].lower():
+                continue      # a flip-flop has the outputs Q and QN only
+            ops.append((lut, o, src, Z, Z, Z, 'a_loc', o))
+        return ops
+    i = [(ins[k] if k < len(ins) and ins[k] is not None else Z) for k in range(4)]
+    kind = case['kind'].lower()
+    if kind == '__fork__':
+        if case['strip_forks']:
+            return []
+        return [('BUF1', o, i[0], i[1], i[2], i[3], 'a_loc', o) for o in outs if o is not None]
+    o0 = outs[0] if outs and outs[0] is not None else T
+    for p, names, _n in prefix_rows:
+        if kind.startswith(p):
+            slot = 0 if i[3] != Z else (1 if i[2] != Z else 2)
+            return [(names[slot], o0, i[0], i[1], i[2], i[3], 'a_loc', o0)]
+    return []
